@@ -1020,13 +1020,10 @@ impl LineBuf {
 			}).unwrap_or(0)
 	}
 	pub fn index_line_number(&self, pos: usize) -> usize {
-		self.grapheme_indices().get(..pos)
-			.map(|slice| {
-				slice
-					.iter()
-					.filter(|idx| self.read_grapheme_at(**idx) == Some("\n"))
-					.count()
-			}).unwrap_or(0)
+		// the terminators among the graphemes before `pos` (grapheme indices, not their byte offsets)
+		(0..pos.min(self.grapheme_indices().len()))
+			.filter(|idx| self.read_grapheme_at(*idx) == Some("\n"))
+			.count()
 	}
 	pub fn is_sentence_punctuation(&self, pos: usize) -> bool {
 		self.next_sentence_start_from_punctuation(pos).is_some()
@@ -1388,56 +1385,71 @@ impl LineBuf {
 	/// Get the span of the current `paragraph`
 	///
 	/// A paragraph is a block of text delimited by empty lines.
-	pub fn text_obj_paragraph(&mut self, start_pos: usize, count: usize, bound: Bound) -> Option<(usize, usize)> {
-		// FIXME: This is a pretty naive approach
-		let mut start = None;
-		let mut end = None;
-		let mut fwd_indices = (start_pos..self.cursor.max).peekable();
-
-		while let Some(idx) = fwd_indices.next() {
-			let Some("\n") = self.grapheme_at(idx) else {
-				continue
-			};
-			let Some(next_idx) = fwd_indices.peek() else { break };
-			if let Some("\n") = self.grapheme_at(*next_idx) {
-				match bound {
-					Bound::Inside => end = Some(*next_idx),
-					Bound::Around => {
-						fwd_indices.next();
-						while let Some(idx) = fwd_indices.next() {
-							match self.grapheme_at(idx) {
-								Some("\n") => continue,
-								_ => {
-									end = Some(idx);
-								}
-							}
-						}
+	/// A line with nothing on it but blanks
+	fn line_is_blank(&mut self, n: usize) -> bool {
+		let Some((start,end)) = self.line_bounds(n) else { return true };
+		(start..end).all(|i| self.grapheme_at(i).is_none_or(is_whitespace))
+	}
+	/// 'ip' is the run of non-blank lines (or of blank lines) around the cursor line. 'ap' is the
+	/// paragraph with the blank lines after it, or with the blank lines before it when none follow; on
+	/// blank lines, the blank lines with the paragraph after them. A count adds as many further runs
+	/// ('ip') or paragraphs ('ap') and fails when there are not that many. Returns whole lines: the start
+	/// of the first one and the end of the last one, its terminator included.
+	pub fn text_obj_paragraph(&mut self, _start_pos: usize, count: usize, bound: Bound) -> Option<(usize, usize)> {
+		let last = self.last_line_number();
+		let cursor_line = self.cursor_line_number().min(last);
+		let mut first_line = cursor_line;
+		let mut last_line = cursor_line;
+		let on_blank = self.line_is_blank(cursor_line);
+		while first_line > 0 && self.line_is_blank(first_line - 1) == on_blank {
+			first_line -= 1;
+		}
+		while last_line < last && self.line_is_blank(last_line + 1) == on_blank {
+			last_line += 1;
+		}
+		// one more run of lines of the same kind, downwards
+		let extend = |this: &mut Self, last_line: &mut usize| -> bool {
+			if *last_line == last {
+				return false
+			}
+			*last_line += 1;
+			let kind = this.line_is_blank(*last_line);
+			while *last_line < last && this.line_is_blank(*last_line + 1) == kind {
+				*last_line += 1;
+			}
+			true
+		};
+		match bound {
+			Bound::Inside => {
+				for _ in 1..count {
+					if !extend(self, &mut last_line) { return None }
+				}
+			}
+			Bound::Around => {
+				if on_blank {
+					// the paragraph after the blank lines belongs to it
+					if !extend(self, &mut last_line) { return None }
+				} else if !extend(self, &mut last_line) {
+					// no blank lines after the paragraph: the ones before it
+					while first_line > 0 && self.line_is_blank(first_line - 1) {
+						first_line -= 1;
 					}
 				}
-
-				break
+				for _ in 1..count {
+					// a further paragraph with the blank lines after it (on blank lines: further blank
+					// lines with the paragraph after them)
+					if !extend(self, &mut last_line) { return None }
+					let ends_on_blank = self.line_is_blank(last_line);
+					if on_blank {
+						if ends_on_blank && !extend(self, &mut last_line) { return None }
+					} else if !ends_on_blank {
+						extend(self, &mut last_line);
+					}
+				}
 			}
 		}
-		let mut end = end.unwrap_or(self.cursor.max);
-
-		let mut bkwd_indices = (0..end).rev().peekable();
-		while let Some(idx) = bkwd_indices.next() {
-			let Some("\n") = self.grapheme_at(idx) else {
-				continue
-			};
-			let Some(next_idx) = bkwd_indices.peek() else { break };
-			if let Some("\n") = self.grapheme_at(*next_idx) {
-				start = Some(idx);
-				break
-			}
-		}
-		let start = start.unwrap_or(0);
-
-		if count > 1 {
-				if let Some((_,new_end)) = self.text_obj_sentence(end, count - 1, bound) {
-			end = new_end;
-			}
-		}
+		let (start,_) = self.line_bounds(first_line)?;
+		let (_,end) = self.line_bounds(last_line)?;
 		Some((start,end))
 	}
 	/// Where '}' (forward) or '{' (backward) goes: the start of the `count`-th empty line in that
@@ -2702,8 +2714,17 @@ impl LineBuf {
 					}
 					// both ends of a word object are part of it
 					TextObj::Word(_, _) => MotionKind::Inclusive((start,end)),
-					TextObj::WholeSentence(bound) |
-					TextObj::WholeParagraph(bound) => {
+					TextObj::WholeParagraph(_) => {
+						// whole lines: an operator takes them linewise, a selection covers them
+						if verb.is_some() && !self.is_selecting() {
+							let first_line = self.index_line_number(start);
+							let last_line = self.index_line_number(end.saturating_sub(1).max(start));
+							MotionKind::LineRange(first_line,last_line)
+						} else {
+							MotionKind::Inclusive((start,end.saturating_sub(1).max(start)))
+						}
+					}
+					TextObj::WholeSentence(bound) => {
 						match bound {
 							Bound::Inside => MotionKind::Inclusive((start,end)),
 							Bound::Around => MotionKind::Exclusive((start,end)),
@@ -3443,9 +3464,13 @@ impl LineBuf {
 				let Some((start,_)) = self.line_bounds(*start) else {
 					return RegisterContent::Empty
 				};
-				let Some((_,end)) = self.line_bounds(*end) else {
+				let Some((_,mut end)) = self.line_bounds(*end) else {
 					return RegisterContent::Empty
 				};
+				if verb == &Verb::Change && end > start && self.grapheme_at(end - 1) == Some("\n") {
+					// changing whole lines leaves one (emptied) line to type into
+					end -= 1;
+				}
 				let line_content = if should_drain {
 					let content = self.drain(start,end);
 					self.update_graphemes();
@@ -3510,9 +3535,10 @@ impl LineBuf {
 							// the emptied line is where the typing goes
 							self.cursor.set(start.min(end));
 						}
-						MotionKind::InclusiveWithTargetCol(..) if verb == Verb::Delete && range_start == Some(cursor_line_start) => {
-							// 'dd', 'dj': the lines from the cursor line on are gone; the cursor goes to the first
-							// non-blank of the line that took their place (of the last line, when they were at the end)
+						MotionKind::LineRange(..) |
+						MotionKind::InclusiveWithTargetCol(..) if verb == Verb::Delete && (matches!(motion, MotionKind::LineRange(..)) || range_start == Some(cursor_line_start)) => {
+							// 'dd', 'dj', 'dip', ':2,3d': the lines are gone; the cursor goes to the first non-blank of
+							// the line that took their place (of the last line, when they were at the end)
 							self.cursor.set(range_start.unwrap_or(0));
 							let line_start = self.start_of_line();
 							self.cursor.set(line_start);
@@ -4246,10 +4272,18 @@ impl LineBuf {
 				.clone()
 				.map(|m| self.eval_motion(verb_ref.as_ref(), m))
 				.unwrap_or({
-					self.select_range
-						.clone()
-						.map(MotionKind::from_select_range)
-						.unwrap_or(MotionKind::Null)
+					match (self.select_mode.as_ref(), self.select_range.clone()) {
+						(Some(SelectMode::Line(_)), Some(SelectRange::OneDim((start,end)))) => {
+							// A linewise selection ends after the terminator of its last line (the end is not
+							// part of it); changing it leaves one emptied line to type into
+							let keep_line = matches!(verb_ref, Some(Verb::Change))
+								&& end > start
+								&& self.grapheme_at(end - 1) == Some("\n");
+							MotionKind::Exclusive((start, if keep_line { end - 1 } else { end }))
+						}
+						(_, Some(range)) => MotionKind::from_select_range(range),
+						(_, None) => MotionKind::Null
+					}
 				})
 		};
 
